@@ -176,6 +176,13 @@ var (
 		oPat(PatSpec{Scheme: "http", Host: "::1", IP6: true}, false, false),
 		oPat(PatSpec{Scheme: "http", Host: "::1", IP6: true, Port: 9090}, false, false),
 		oPat(PatSpec{Scheme: "connector", Host: "localhost"}, false, false),
+		// hosts next to PSL wildcard / exception rules (`*.kawasaki.jp`, `!city.kawasaki.jp`, `*.ck`, `!www.ck`):
+		// kawasaki.jp and city.kawasaki.jp are NOT public suffixes although foo.kawasaki.jp is (lesson of seeded change C04-h)
+		oPat(PatSpec{Scheme: "https", Subs: true, Host: "kawasaki.jp"}, false, false),
+		oPat(PatSpec{Scheme: "https", Subs: true, Host: "kawasaki.jp", Port: portAny}, false, false),
+		oPat(PatSpec{Scheme: "https", Subs: true, Host: "city.kawasaki.jp"}, false, false),
+		oPat(PatSpec{Scheme: "https", Subs: true, Host: "www.ck"}, false, false),
+		oPat(PatSpec{Scheme: "https", Host: "foo.kawasaki.jp"}, false, false),
 	}
 	insecureOriginAtoms = []OAtom{
 		oPat(PatSpec{Scheme: "http", Host: "example.com"}, true, false),
@@ -190,6 +197,12 @@ var (
 		oPat(PatSpec{Scheme: "http", Host: "2001:db8::1", IP6: true}, true, false),
 		oPat(PatSpec{Scheme: "http", Host: "2001:db8::1", IP6: true, Port: 8080}, true, false),
 		oPat(PatSpec{Scheme: "http", Host: "128.0.0.1"}, true, false),
+		// hosts that merely END in localhost / are covered by a broader pattern of the tables
+		oPat(PatSpec{Scheme: "http", Host: "a.localhost"}, true, false),
+		oPat(PatSpec{Scheme: "http", Host: "a.localhost", Port: 8080}, true, false),
+		oPat(PatSpec{Scheme: "http", Subs: true, Host: "a.localhost"}, true, false),
+		oPat(PatSpec{Scheme: "http", Host: "a.example.com"}, true, false),
+		oPat(PatSpec{Scheme: "http", Subs: true, Host: "a.example.com", Port: 8080}, true, false),
 	}
 	pslOriginAtoms = []OAtom{
 		oPat(PatSpec{Scheme: "https", Subs: true, Host: "com"}, false, true),
@@ -201,6 +214,18 @@ var (
 		oPat(PatSpec{Scheme: "https", Subs: true, Host: "github.io.", Port: 8443}, false, true),
 		oPat(PatSpec{Scheme: "http", Subs: true, Host: "com"}, true, true),
 		oPat(PatSpec{Scheme: "http", Subs: true, Host: "org", Port: portAny}, true, true),
+		// public suffixes by a PSL wildcard rule, whose parent is not one
+		oPat(PatSpec{Scheme: "https", Subs: true, Host: "foo.kawasaki.jp"}, false, true),
+		oPat(PatSpec{Scheme: "https", Subs: true, Host: "foo.kawasaki.jp", Port: portAny}, false, true),
+		oPat(PatSpec{Scheme: "https", Subs: true, Host: "foo.kawasaki.jp.", Port: 8443}, false, true),
+		oPat(PatSpec{Scheme: "https", Subs: true, Host: "foo.ck"}, false, true),
+	}
+	// contextOriginAtoms are used only as neighbours of other atoms and only in configurations that set
+	// DangerouslyTolerateSubdomainsOfPublicSuffixes (their own public-suffix status is then immaterial): subdomains of
+	// localhost, which the library does not deem insecure (grey zone of the documentation; DESIGN.md section 9).
+	contextOriginAtoms = []OAtom{
+		oPat(PatSpec{Scheme: "http", Subs: true, Host: "localhost"}, false, true),
+		oPat(PatSpec{Scheme: "http", Subs: true, Host: "localhost", Port: portAny}, false, true),
 	}
 	invalidOriginAtoms = []OAtom{
 		oBad("", "empty", ""),
@@ -586,4 +611,31 @@ func (s *Sem) permits(in *Intent) bool {
 		}
 	}
 	return true
+}
+
+// relatedOriginAtoms returns the atoms of pool that are structurally related to a: same scheme, and one host is a
+// label-wise suffix of the other (or the hosts are equal and the atoms differ in `*.` / port). These are the lists in
+// which one pattern covers, or is covered by, another (lesson of seeded change C04-h: anything the implementation
+// derives from an EARLIER pattern of the same list).
+func relatedOriginAtoms(a OAtom, pool []OAtom) []OAtom {
+	if a.Kind != oValid {
+		return nil
+	}
+	var out []OAtom
+	ah := strings.TrimSuffix(a.Spec.Host, ".")
+	for _, f := range pool {
+		if f.Kind != oValid || f.Raw == a.Raw || f.Spec.Scheme != a.Spec.Scheme || f.Spec.IP6 != a.Spec.IP6 {
+			continue
+		}
+		fh := strings.TrimSuffix(f.Spec.Host, ".")
+		if ah == fh || strings.HasSuffix(ah, "."+fh) || strings.HasSuffix(fh, "."+ah) {
+			out = append(out, f)
+		}
+	}
+	return out
+}
+
+// allValidKindOriginAtoms: every atom that is a syntactically valid pattern (conditionally permitted or not).
+func allValidKindOriginAtoms() []OAtom {
+	return append(append(append([]OAtom{}, secureOriginAtoms...), insecureOriginAtoms...), pslOriginAtoms...)
 }
